@@ -38,7 +38,7 @@ def budget(tier):
 
 @st.composite
 def case(draw):
-    desc = draw(bm.description(allow_dirs=True))
+    desc = draw(bm.description(allow_dirs=True, allow_amo=True))
     ops = []
     n = draw(st.integers(3, 10))
     cur = copy.deepcopy(desc)
@@ -66,8 +66,8 @@ def case(draw):
                         "inplace": False})
         elif k == "delete-out" and outs:
             ops.append({"op": "delete", "path": draw(st.sampled_from(outs))})
-        elif k == "tamper-out" and outs:
-            ops.append({"op": "write", "path": draw(st.sampled_from(outs)), "text": "junk-%d\n" % draw(st.integers(0, 2)),
+        elif k == "tamper-out" and [o for o in outs if o not in amo_outs(cur)]:
+            ops.append({"op": "write", "path": draw(st.sampled_from([o for o in outs if o not in amo_outs(cur)])), "text": "junk-%d\n" % draw(st.integers(0, 2)),
                         "inplace": draw(st.booleans())})
         elif k == "desc":
             e = draw(desc_edit(cur, sources, extra_id))
@@ -83,6 +83,10 @@ def case(draw):
     # a third of the histories keep ONE BuildSystemFrontend alive across consecutive builds (the system
     # and engine are reset and reused); a description edit ends the session, the next build starts a new one
     return {"desc": desc, "ops": ops, "session": draw(st.integers(0, 2)) == 0}
+
+
+def amo_outs(cur):
+    return {o for c in cur["commands"] if c.get("allow-modified-outputs") for o in c["outputs"]}
 
 
 @st.composite
